@@ -1,12 +1,12 @@
-import ArrProofs.Lemmas.C03Common
+import ArrProofs.Lemmas.C03Helper
 /-!
 # C03 — broadcasting follows the trailing-axis stretch rule, in shape and in values
 
 Property theorems only (helper lemmas and the specification predicates `stretchEq`, `stretchable`
 live in `ArrProofs/Lemmas/C03*.lean`).
 Model under test: `ArrModel/Broadcast.lean` (`isBroadcastable`, `broadcastShape`, `broadcastTo`, `broadcast`,
-`commonBroadcastShape`, `broadcastArrays`, `zip`), which transcribes `validators/shape.rs:18-29`,
-`operations/broadcast.rs` and `iter.rs:308-315` arm for arm.
+`commonBroadcastShape`, `broadcastArrays`, `zip`, and the crate-internal helpers `broadcastH2`, `broadcastH3`),
+which transcribes `validators/shape.rs:18-29`, `operations/broadcast.rs` and `iter.rs:308-315` arm for arm.
 
 Specification vocabulary
 * `stretchable s t` — `s` is no longer than `t` and, aligned at the trailing axis, every axis of `s`
@@ -72,7 +72,7 @@ theorem broadcastTo_total (a : Arr α) (t : List Nat) (hwf : a.WF) (hs : stretch
 The statement leaves one region open: targets of the *same* element count that the source cannot be
 stretched to.  There the code answers an error when `is_broadcastable` sees a clash (e.g. `[2,3] → [3,2]`)
 and otherwise takes the `reshape` shortcut and succeeds (e.g. `[1,6] → [6,1]`).  No theorem is stated for
-that region (see the two examples at the end of the file). -/
+that region here; section G pins the region down (`broadcastTo_equal_count`, `equal_count_region`). -/
 
 /-- **broadcast_to, rejection**: a target of a different element count that the source cannot be
 stretched to is refused with `BroadcastShapeMismatch` — never data, never a panic. -/
@@ -385,6 +385,163 @@ theorem broadcastArrays_zero_axis (arrs : List (Arr α)) (hwf : ∀ a ∈ arrs, 
     · exact hrs
   · rw [hcs]; rfl
 
+/-! ## G. `broadcast_to` on a target of the same element count
+
+The statement is silent about same-count targets the source cannot be stretched to.  What the code does there
+is pinned down: the only test left is `is_broadcastable`; when it passes, the element list is kept as it is and
+only the shape is replaced (the `reshape` shortcut), otherwise the call is refused. -/
+
+/-- `is_broadcastable`, axis by axis from the trailing axis: no zero length on an aligned axis, and the
+two aligned lengths are equal or one of them is one (the *direction* is not tested) -/
+theorem isBroadcastable_spec (s t : List Nat) :
+    isBroadcastable s t = true ↔ ∀ k, k < s.length → k < t.length →
+      fromEnd s k ≠ 0 ∧ fromEnd t k ≠ 0 ∧
+      (fromEnd s k = fromEnd t k ∨ fromEnd s k = 1 ∨ fromEnd t k = 1) :=
+  isBroadcastable_iff_compat s t
+
+/-- **broadcast_to, equal element count**: on a target of the same element count the outcome is decided by
+`is_broadcastable` alone — it passes: the row-major element list is returned unchanged under the new shape;
+it fails: `BroadcastShapeMismatch`.  (For a stretchable pair this agrees with `broadcastTo_stretch`; for a
+non-stretchable pair it is the region the statement leaves open, e.g. `[1,6] → [6,1]` succeeds.) -/
+theorem broadcastTo_equal_count (a : Arr α) (t : List Nat) (hwf : a.WF) (hp : a.shape.prod = t.prod) :
+    a.broadcastTo t =
+      if isBroadcastable a.shape t = true then .ok ⟨a.elems, t⟩ else .err .BroadcastShapeMismatch := by
+  unfold Arr.broadcastTo
+  by_cases hb : isBroadcastable a.shape t = true
+  · rw [if_neg (by simp [hb]), if_pos hp, if_pos hb]
+    unfold Arr.reshape Arr.new
+    rw [if_pos (by rw [← hp, hwf])]
+  · rw [if_pos (by simpa using hb), if_neg hb]
+
+/-- **the open region, characterised**: a pair that passes `is_broadcastable` without being a stretch either
+lowers the rank, or shrinks an axis of the source that is longer than one to a unit axis of the target.
+With `broadcastTo_equal_count` and `broadcastTo_reject`: outside the stretch rule `broadcast_to` hands out data
+only for such pairs and only when the element counts agree, and then it is the unchanged element list. -/
+theorem equal_count_region (s t : List Nat) (hs : stretchable s t = false) (hb : isBroadcastable s t = true) :
+    t.length < s.length ∨ ∃ k, k < s.length ∧ k < t.length ∧ fromEnd t k = 1 ∧ 1 < fromEnd s k :=
+  not_stretchable_region s t hs hb
+
+/-! ## H. the crate-internal helpers `broadcast_h2`, `broadcast_h3`
+
+Every string-array operation with a heterogeneous operand (`multiply`, `splitlines`, `center`, `ljust`, …),
+`round` and the flat `insert` go through these. `zero` stands for `T::zero()`; it never reaches a result. -/
+
+/-- a one-element array broadcasts to every shape without a zero length — the rank-0 shape included
+(through the equal-count shortcut) -/
+theorem single_broadcastTo (z : α) (s : List Nat) (hz : 0 ∉ s) :
+    ∃ r, (Arr.mk [z] [1]).broadcastTo s = .ok r ∧ r.shape = s ∧ r.WF := by
+  cases s with
+  | nil => exact ⟨⟨[z], []⟩, rfl, rfl, rfl⟩
+  | cons d s' =>
+    have hst : stretchable [1] (d :: s') = true := single_stretchable _ (by simp) hz
+    obtain ⟨r, h1, h2, h3, _⟩ := broadcastTo_stretch ⟨[z], [1]⟩ (d :: s') rfl hst
+    exact ⟨r, h1, h2, h3⟩
+
+/-- **broadcast_h2, values and shapes**: two well-formed operands (element types may differ) without
+zero-length axes whose shapes have the broadcast shape `fs` are both stretched to exactly `fs`, each value by
+value through `bsrc`. -/
+theorem broadcastH2_at (a : Arr α) (zero : α) (b : Arr β) (fs : List Nat) (ha : a.WF) (hb : b.WF)
+    (hza : 0 ∉ a.shape) (hzb : 0 ∉ b.shape) (hfs : broadcastShape a.shape b.shape = .ok fs) :
+    ∃ a' b', a.broadcastH2 zero b = .ok (a', b') ∧ a'.shape = fs ∧ b'.shape = fs ∧ a'.WF ∧ b'.WF ∧
+      ∀ c, inRange fs c = true →
+        a'.get? c = a.get? (bsrc a.shape c) ∧ b'.get? c = b.get? (bsrc b.shape c) := by
+  have hz : 0 ∉ fs := (zero_not_mem_broadcastShape_iff _ _ _ hfs).2 ⟨hza, hzb⟩
+  obtain ⟨t, ht1, ht2, ht3⟩ := single_broadcastTo zero b.shape hzb
+  obtain ⟨r, hr1, hr2, hr3, hr4⟩ := broadcast_at a t fs ha ht3 (by rw [ht2]; exact hfs) hz
+  obtain ⟨_, hsb, _⟩ := stretchable_of_broadcastShape _ _ _ hfs hz
+  obtain ⟨b', hb1, hb2, hb3, hb4⟩ := broadcastTo_stretch b fs hb hsb
+  have hlen : (r.elems.map (·.1)).length = fs.prod := by
+    rw [List.length_map, ← hr2]; exact hr3
+  refine ⟨(⟨r.elems.map (fun (p : α × α) => p.1), fs⟩ : Arr α), b', ?_, rfl, hb2, hlen, hb3, fun c hc => ⟨?_, hb4 c hc⟩⟩
+  · unfold Arr.broadcastH2
+    rw [ht1]
+    simp only [Res.bind_ok]
+    rw [hr1]
+    have hre : (Arr.flat (r.elems.map (·.1))).reshape r.shape = .ok ⟨r.elems.map (·.1), fs⟩ := by
+      rw [hr2]; exact if_pos hlen.symm
+    simp only [Res.bind_ok]
+    rw [hre]
+    simp only [Res.bind_ok]
+    rw [hb1]; rfl
+  · obtain ⟨x, y, hx, _, hxy⟩ := hr4 c hc
+    rw [hx]
+    unfold Arr.get? at hxy
+    rw [hr2] at hxy
+    exact getElem?_map_fst r.elems _ x y hxy
+
+/-- **broadcast_h2, rejection**: shapes without a broadcast shape are refused -/
+theorem broadcastH2_reject (a : Arr α) (zero : α) (b : Arr β) (e : Err)
+    (h : broadcastShape a.shape b.shape = .err e) : a.broadcastH2 zero b = .err .BroadcastShapeMismatch := by
+  unfold Arr.broadcastH2
+  rcases broadcastTo_ok_or_reject ⟨[zero], [1]⟩ b.shape rfl with ⟨t, ht⟩ | ht
+  · rw [ht]
+    simp only [Res.bind_ok]
+    have hts := broadcastTo_shape _ _ _ ht
+    rw [broadcast_err_of_shape_err a t e (by rw [hts]; exact h)]; rfl
+  · rw [ht]; rfl
+
+/-- **broadcast_h3, values and shapes**: three well-formed operands without zero-length axes whose shapes
+have the common shape `cs` are all stretched to exactly `cs`, each value by value through `bsrc`. -/
+theorem broadcastH3_at {γ : Type} (a : Arr α) (zero : α) (b : Arr β) (c : Arr γ) (cs : List Nat)
+    (ha : a.WF) (hb : b.WF) (hc : c.WF) (hza : 0 ∉ a.shape) (hzb : 0 ∉ b.shape) (hzc : 0 ∉ c.shape)
+    (hcs : commonBroadcastShape [a.shape, b.shape, c.shape] = .ok cs) :
+    ∃ a' b' c', a.broadcastH3 zero b c = .ok (a', b', c') ∧
+      a'.shape = cs ∧ b'.shape = cs ∧ c'.shape = cs ∧ a'.WF ∧ b'.WF ∧ c'.WF ∧
+      ∀ x, inRange cs x = true →
+        a'.get? x = a.get? (bsrc a.shape x) ∧ b'.get? x = b.get? (bsrc b.shape x) ∧
+        c'.get? x = c.get? (bsrc c.shape x) := by
+  obtain ⟨t1, h11, h12, h13⟩ := single_broadcastTo zero b.shape hzb
+  obtain ⟨t2, h21, h22, h23⟩ := single_broadcastTo zero c.shape hzc
+  have hshapes : [a, t1, t2].map (·.shape) = [a.shape, b.shape, c.shape] := by simp [h12, h22]
+  obtain ⟨rs, hrs1, _, hrs3⟩ := broadcastArrays_spec [a, t1, t2] cs
+    (by intro x hx; simp only [List.mem_cons, List.not_mem_nil, or_false] at hx
+        rcases hx with rfl | rfl | rfl <;> assumption)
+    (by intro x hx; simp only [List.mem_cons, List.not_mem_nil, or_false] at hx
+        rcases hx with rfl | rfl | rfl
+        · exact hza
+        · rw [h12]; exact hzb
+        · rw [h22]; exact hzc)
+    (by rw [hshapes]; exact hcs)
+  obtain ⟨r, hr1, hr2, hr3, hr4⟩ := hrs3 0 a rfl
+  have hsb := stretchable_of_common _ cs hcs b.shape (by simp) hzb
+  have hsc := stretchable_of_common _ cs hcs c.shape (by simp) hzc
+  obtain ⟨b', hb1, hb2, hb3, hb4⟩ := broadcastTo_stretch b cs hb hsb
+  obtain ⟨c', hc1, hc2, hc3, hc4⟩ := broadcastTo_stretch c cs hc hsc
+  refine ⟨r, b', c', ?_, hr2, hb2, hc2, hr3, hb3, hc3, fun x hx => ⟨hr4 x hx, hb4 x hx, hc4 x hx⟩⟩
+  unfold Arr.broadcastH3
+  rw [h11]
+  simp only [Res.bind_ok]
+  rw [h21]
+  simp only [Res.bind_ok]
+  rw [hrs1]
+  simp only [Res.bind_ok, Res.idx, hr1]
+  rw [hr2, hb1]
+  simp only [Res.bind_ok]
+  rw [hc1]; rfl
+
+/-- **broadcast_h3, rejection**: shapes without a common shape are refused -/
+theorem broadcastH3_reject {γ : Type} (a : Arr α) (zero : α) (b : Arr β) (c : Arr γ) (e : Err)
+    (h : commonBroadcastShape [a.shape, b.shape, c.shape] = .err e) :
+    a.broadcastH3 zero b c = .err .BroadcastShapeMismatch := by
+  unfold Arr.broadcastH3
+  rcases broadcastTo_ok_or_reject ⟨[zero], [1]⟩ b.shape rfl with ⟨t1, h1⟩ | h1
+  · rw [h1]
+    simp only [Res.bind_ok]
+    rcases broadcastTo_ok_or_reject ⟨[zero], [1]⟩ c.shape rfl with ⟨t2, h2⟩ | h2
+    · rw [h2]
+      simp only [Res.bind_ok]
+      have hba : Arr.broadcastArrays [a, t1, t2] = .err .BroadcastShapeMismatch := by
+        unfold Arr.broadcastArrays
+        have hs : [a, t1, t2].map (·.shape) = [a.shape, b.shape, c.shape] := by
+          simp [broadcastTo_shape _ _ _ h1, broadcastTo_shape _ _ _ h2]
+        rw [hs]
+        rcases commonBroadcastShape_ok_or_err [a.shape, b.shape, c.shape] with ⟨cs, hcs⟩ | hcs
+        · rw [hcs] at h; cases h
+        · rw [hcs]; rfl
+      rw [hba]; rfl
+    · rw [h2]; rfl
+  · rw [h1]; rfl
+
 /-! ### non-vacuity: concrete instances meeting the hypotheses, and the conclusions observed on them -/
 example : (⟨List.range 6, [2, 1, 3]⟩ : Arr Nat).WF ∧ stretchable [2, 1, 3] [2, 2, 3] = true := by decide
 example : (⟨List.range 6, [2, 1, 3]⟩ : Arr Nat).broadcastTo [2, 2, 3]
@@ -422,5 +579,31 @@ example : commonBroadcastShape [[2, 1, 3], [4, 1], [3]] = .ok [2, 4, 3] ∧ maxL
 example : Arr.broadcastArrays [(⟨[1, 2], [2, 1]⟩ : Arr Nat), ⟨[5, 6, 7], [3]⟩]
     = .ok [⟨[1, 1, 1, 2, 2, 2], [2, 3]⟩, ⟨[5, 6, 7, 5, 6, 7], [2, 3]⟩] := by decide
 example : Arr.broadcastArrays [(⟨[1, 2], [2]⟩ : Arr Nat), ⟨[5, 6, 7], [3]⟩] = .err .BroadcastShapeMismatch := by decide
+
+-- G: the open region pinned down — [1,6] → [6,1] passes `is_broadcastable`, is not a stretch, the target has a
+-- unit axis (k = 0) where the source has 6; [2,3] → [3,2] fails `is_broadcastable`
+example : isBroadcastable [1, 6] [6, 1] = true ∧ stretchable [1, 6] [6, 1] = false ∧ [1, 6].prod = [6, 1].prod ∧
+    fromEnd [6, 1] 0 = 1 ∧ 1 < fromEnd [1, 6] 0 ∧
+    (⟨List.range 6, [1, 6]⟩ : Arr Nat).broadcastTo [6, 1] = .ok ⟨List.range 6, [6, 1]⟩ := by decide
+example : isBroadcastable [2, 3] [3, 2] = false ∧ [2, 3].prod = [3, 2].prod := by decide
+example : isBroadcastable [2, 3] [6] = false ∧ isBroadcastable [6, 1] [6] = true ∧ stretchable [6, 1] [6] = false ∧
+    (⟨List.range 6, [6, 1]⟩ : Arr Nat).broadcastTo [6] = .ok ⟨List.range 6, [6]⟩ := by decide
+-- H: broadcast_h2 / broadcast_h3
+example : broadcastShape [2, 1] [3] = .ok [2, 3] ∧
+    (⟨[1, 2], [2, 1]⟩ : Arr Nat).broadcastH2 0 (⟨['a', 'b', 'c'], [3]⟩ : Arr Char)
+      = .ok (⟨[1, 1, 1, 2, 2, 2], [2, 3]⟩, ⟨['a', 'b', 'c', 'a', 'b', 'c'], [2, 3]⟩) := by decide
+example : (⟨[7], []⟩ : Arr Nat).broadcastH2 0 (⟨[true, false], [2]⟩ : Arr Bool)
+      = .ok (⟨[7, 7], [2]⟩, ⟨[true, false], [2]⟩) ∧
+    (⟨[7, 8], [2]⟩ : Arr Nat).broadcastH2 0 (⟨[true], []⟩ : Arr Bool)
+      = .ok (⟨[7, 8], [2]⟩, ⟨[true, true], [2]⟩) := by decide
+example : broadcastShape [2] [3] = .err .BroadcastShapeMismatch ∧
+    (⟨[1, 2], [2]⟩ : Arr Nat).broadcastH2 0 (⟨['a', 'b', 'c'], [3]⟩ : Arr Char) = .err .BroadcastShapeMismatch := by decide
+example : commonBroadcastShape [[2, 1], [3], [1]] = .ok [2, 3] ∧
+    (⟨[1, 2], [2, 1]⟩ : Arr Nat).broadcastH3 0 (⟨['a', 'b', 'c'], [3]⟩ : Arr Char) (⟨[true], [1]⟩ : Arr Bool)
+      = .ok (⟨[1, 1, 1, 2, 2, 2], [2, 3]⟩, ⟨['a', 'b', 'c', 'a', 'b', 'c'], [2, 3]⟩,
+             ⟨[true, true, true, true, true, true], [2, 3]⟩) := by decide
+example : commonBroadcastShape [[2], [1], [3]] = .err .BroadcastShapeMismatch ∧
+    (⟨[1, 2], [2]⟩ : Arr Nat).broadcastH3 0 (⟨['a'], [1]⟩ : Arr Char) (⟨[true, false, true], [3]⟩ : Arr Bool)
+      = .err .BroadcastShapeMismatch := by decide
 
 end ArrModel.C03
